@@ -381,6 +381,14 @@ def run(ctx):
                 mev.append(membership_event(a, seed))
             except Exception as ex:
                 ctx.violation('C10:%s:exception' % a['fn'], 'an admissible call raised %s: %s' % (type(ex).__name__, str(ex)[:120]), dict(call=a, seed=seed))
+    counts = {}
+    for e in mev:
+        for c in e['claims']:
+            counts[c['c']] = counts.get(c['c'], 0) + 1
+    ctx.extra['claims_decided_by_kind'] = counts
+    missing = {'unit', 'ball', 'unitary', 'det1', 'hermitian', 'trace1', 'gram', 'between', 'kraus', 'tp', 'sumto', 'symB', 'orthomats', 'real', 'realv'} - set(counts)
+    if missing:
+        raise core.MachineryError('vacuous run: claim kinds never generated: %s' % sorted(missing))
     acc, rej, results = tlc.validate_events('rng/Trace_Rng.tla', 'rng/Trace_Rng.cfg', [[e] for e in mev], shards=16)
     for r in results:
         ctx.states += r.distinct
